@@ -64,6 +64,8 @@ pub struct RcEnc {
     pub carries_through_ff: usize,
     /// number of carries at all
     pub carries: usize,
+    /// longest run of pending 0xFF bytes a carry was propagated through
+    pub max_ff_run_at_carry: u64,
 }
 impl Default for RcEnc {
     fn default() -> Self {
@@ -81,6 +83,7 @@ impl RcEnc {
             norm_shifts: 0,
             carries_through_ff: 0,
             carries: 0,
+            max_ff_run_at_carry: 0,
         }
     }
     fn shift_low(&mut self) {
@@ -90,6 +93,7 @@ impl RcEnc {
                 self.carries += 1;
                 if self.cache_size > 1 {
                     self.carries_through_ff += 1;
+                    self.max_ff_run_at_carry = self.max_ff_run_at_carry.max(self.cache_size - 1);
                 }
             }
             let mut c = self.cache;
